@@ -157,7 +157,10 @@ where T: Ring + Bridge, for<'x> &'x T: RingOps<T>, T::O: OEuc + HomCmp {
     // schedule for the manual route
     let nsteps = rng.urange(1, 8);
     let schedule: Vec<(usize, usize, usize, usize)> = (0..nsteps).map(|_| (rng.below(4), rng.below(len + 1), rng.below(2), rng.below(5))).collect();
-    let route_name = ["ChainReducer::reduce", "manual schedule", "ChainComplexBase::reduced"][route];
+    // ChainComplexBase::reduced: half of the time applied twice (the second call starts from summands that already
+    // carry a transfer map; the result must still be a reduction of the ORIGINAL complex)
+    let twice = route == 2 && rng.chance(1, 2);
+    let route_name = if twice { "ChainComplexBase::reduced().reduced()" } else { ["ChainReducer::reduce", "manual schedule", "ChainComplexBase::reduced"][route] };
     let cfg = json!({"ring": tname, "dims": dims, "input": family, "route": route_name,
         "threads": nthreads, "policy": format!("{:?}", policy), "track_flags": flags, "schedule": schedule});
     let show_d: Vec<String> = pc.d.iter().map(|m| m.show()).collect();
@@ -174,7 +177,7 @@ where T: Ring + Bridge, for<'x> &'x T: RingOps<T>, T::O: OEuc + HomCmp {
         let c = GenericChainComplex::<T>::generate(0..=l, 1, move |i| lib3[i as usize].clone());
         let conds = [PivotCondition::One, PivotCondition::AnyUnit, PivotCondition::Weight(1.0), PivotCondition::Weight(2.0), PivotCondition::Weight(5.0)];
         if route == 2 {
-            let r = c.reduced();
+            let r = if twice { c.reduced().reduced() } else { c.reduced() };
             let mut out = Outcome { mats: vec![], trans: vec![], vecs: vec![vec![]; (l + 1) as usize], log };
             for i in 0..=l {
                 out.mats.push(Some(sp_to_o(&r.d_matrix(i))));
